@@ -11,7 +11,11 @@ for d in $PWD/seeded/*/; do
   by=$(python3 -c "import json;print(json.load(open('$d/meta.json')).get('detected_by','') or json.load(open('$d/meta.json'))['property'])")
   patch=$d/patch.diff; [ -f $d/patch-ported-to-current-tree.diff ] && patch=$d/patch-ported-to-current-tree.diff
   rm -rf $WT; git -C /repo worktree prune; git -C /repo worktree add -q --detach $WT HEAD || exit 2
-  if ! git -C $WT apply $patch 2>/dev/null; then echo "$id: patch does not apply"; git -C /repo worktree remove --force $WT; continue; fi
+  # patches were made against the tree of their day; where later fix: commits moved the context a three-way application
+  # is tried (the patch's index lines name blobs that exist in /repo's object store), and where that conflicts a
+  # hand-ported patch-ported-to-current-tree.diff (same change, current context) is kept next to the original
+  if ! git -C $WT apply $patch 2>/dev/null && ! git -C $WT apply --3way $patch >/dev/null 2>&1; then echo "$id: patch does not apply"; git -C /repo worktree remove --force $WT; continue; fi
+  if ! (cd $WT && GOFLAGS=-mod=mod GOPROXY=off GOSUMDB=off GOTOOLCHAIN=local go build ./... >/dev/null 2>&1); then echo "$id: does not build on the current tree"; git -C /repo worktree remove --force $WT; continue; fi
   line="$id:"
   for p in $(echo $by | tr ',/' '  '); do
     case $p in C[0-9][0-9]) ;; *) continue;; esac
